@@ -72,7 +72,7 @@ def _plain_at(us, off):
             "present": st.sampled_from(["dt", "iso"]),
             "style": st.integers(0, 31),
             "dur": _durations(),
-            "data": gen.json_data(8),
+            "data": gen.json_data(8, surrogates=True),
             # valid JSON nested far deeper than a person writes (only the depth is drawn; the value is built in _full_data)
             "deep": st.sampled_from([0] * 9 + [120, 600, 900]),
             "id": st.one_of(st.none(), st.integers(0, 2**40), gen.texts(4)),
